@@ -1,0 +1,30 @@
+//go:build verif
+
+package node
+
+// Accessors for the verification harness (build tag verif only). Call them
+// from the supervisor machine's own goroutine (a handler or a tracer).
+
+// VerifPool returns the number of tracked workers, of ready workers and the
+// effective minimum.
+func (s *Supervisor) VerifPool() (tracked, ready, min int) {
+	return len(s.workers), len(s.readyWorkers()), s.min()
+}
+
+// VerifWorkerAddrs returns the addresses the workers are tracked under.
+func (s *Supervisor) VerifWorkerAddrs() []string {
+	ret := make([]string, 0, len(s.workers))
+	for addr := range s.workers {
+		ret = append(ret, addr)
+	}
+	return ret
+}
+
+// VerifWorkerErrs returns the number of remembered errors of a worker, or -1.
+func (s *Supervisor) VerifWorkerErrs(addr string) int {
+	w, ok := s.workers[addr]
+	if !ok {
+		return -1
+	}
+	return w.errs.ItemCount()
+}
